@@ -464,7 +464,7 @@ def evaluate(case: dict) -> Outcome:
 
 def replay(case: dict) -> list[str]:
     _LAST[0] = None
-    return [f"{clause}: {detail}" for clause, ok, _, detail in evaluate(case) if not ok]
+    return [f"{_label(clause, case)}: {detail}" for clause, ok, _, detail in evaluate(case) if not ok]
 
 
 # ------------------------------------------------------------------------------------------------
@@ -529,10 +529,33 @@ def _f3_codon_start_origin_spanning(clause: str, case: dict) -> bool:
             and _spans_origin(case["gene"]))
 
 
-FINDING_CLASSES: dict[str, Callable[[str, Any], bool]] = {
+_RAW_CLASSES: dict[str, Callable[[str, Any], bool]] = {
     "C09-F1": _f1_origin_spanning_gene,
     "C09-F2": _f2_tta_multi_exon,
     "C09-F3": _f3_codon_start_origin_spanning,
+}
+
+
+_DOMAIN_TAG = " [inputs of "
+
+
+def _label(clause: str, case: dict) -> str:
+    """Evaluations on inputs inside the class of a listed finding are reported under their own clause label
+    (`<clause> [inputs of Cxx-Fn]`), so that the known failures cannot crowd the driver's per-clause
+    failure samples and hide a new violation of the same clause on other inputs. The clause itself is the same
+    strict one on both sides."""
+    for finding, predicate in _RAW_CLASSES.items():
+        if predicate(clause, case):
+            return f"{clause}{_DOMAIN_TAG}{finding}]"
+    return clause
+
+
+def _stripped(predicate: Callable[[str, Any], bool]) -> Callable[[str, Any], bool]:
+    return lambda clause, case: predicate(clause.split(_DOMAIN_TAG)[0], case)
+
+
+FINDING_CLASSES: dict[str, Callable[[str, Any], bool]] = {
+    finding: _stripped(predicate) for finding, predicate in _RAW_CLASSES.items()
 }
 
 
@@ -705,7 +728,7 @@ def _report(run: Any, case: dict) -> None:
         return
     key = repr(case)
     for clause, ok, nontrivial, detail in outcome:
-        run.check(clause, ok, case, nontrivial=nontrivial, detail=detail if not ok else "", key=key)
+        run.check(_label(clause, case), ok, case, nontrivial=nontrivial, detail=detail if not ok else "", key=key)
 
 
 def run_shard(shard: dict, run: Any) -> None:
